@@ -76,6 +76,12 @@ func (m *Model) Layout() {
 				Character: char,
 				Style:     seg.Style,
 			}
+			if col > 0 && col+char.Width > m.width {
+				// This character doesn't fit the rest of the line
+				m.lines = append(m.lines, l)
+				l = &line{}
+				col = 0
+			}
 			l.append(cell)
 			col += char.Width
 			if col >= m.width {
@@ -84,6 +90,10 @@ func (m *Model) Layout() {
 				col = 0
 			}
 		}
+	}
+	if len(l.characters) > 0 {
+		// The last line has no terminator
+		m.lines = append(m.lines, l)
 	}
 }
 
